@@ -2,6 +2,9 @@
 //! version ∈ {v-1, v, v+1} × 5 formats × 5 formats, contents compared with the Lean `importVec`.
 //!   imp <fmtC> <entryC> <verC> <fmtR> <entryR> <verR> <n>
 //! answer: `<outcome of the reopen> | then <outcome of importing again with the creation parameters>`
+//!   impc <fmt> <entryC> <entryR> <ver> <n>   (raw formats) — same version and format, but two stray bytes were appended to
+//!   the data region behind the vector's back: the import must refuse (CorruptedRegion) and must NOT remove anything
+//! answer: `<outcome of the reopen> | region <intact|changed|gone>`
 
 use std::{
     io::Write as _,
@@ -52,8 +55,55 @@ fn outcome(r: &Result<(usize, Vec<u64>), Error>, had: usize, n: usize) -> String
     }
 }
 
+
+/// create, fill, flush, then append two stray bytes to the data region; returns (region id, region length afterwards)
+fn create_corrupt<V: ImportableVec + WritableVec<usize, u64> + AnyStoredVec>(db: &Database, forced: bool, ver: u32, n: usize) -> Result<(String, usize), Error> {
+    let mut v = if forced { V::forced_import(db, "v", Version::new(ver))? } else { V::import(db, "v", Version::new(ver))? };
+    for i in 0..n { v.push(1000 + i as u64); }
+    v.flush()?;
+    let r = v.region().clone();
+    r.write(&[0xAA, 0xBB])?;
+    r.flush()?;
+    let id = r.meta().id().to_string();
+    let len = r.meta().len();
+    Ok((id, len))
+}
+
+fn exec_corrupt(tmp: &std::path::Path, ws: &[&str]) -> String {
+    let (f, ec, er, ver) = (ws[1], ws[2] == "forced", ws[3] == "forced", ws[4].parse::<u32>().unwrap());
+    let n: usize = ws[5].parse().unwrap();
+    let r = catch_unwind(AssertUnwindSafe(|| {
+        let dir = tempfile::tempdir_in(tmp).unwrap();
+        let db = Database::open(dir.path()).unwrap();
+        let (id, len) = by_fmt!(f, create_corrupt, &db, ec, ver, n).unwrap();
+        db.flush().unwrap();
+        let first = by_fmt!(f, open_len, &db, er, ver);
+        let o1 = outcome(&first, n, n);
+        drop(first);
+        let region = match db.get_region(&id) {
+            None => "gone",
+            Some(r) => if r.meta().len() == len { "intact" } else { "changed" },
+        };
+        (o1, region.to_string())
+    }));
+    match r {
+        Ok((o1, region)) => {
+            let mut fails = vec![];
+            // created and reopened through the same entry point: the header matches, the only thing wrong is the length
+            if ec == er {
+                if o1 != "err:CorruptedRegion" { fails.push(format!("C14: same version and format, data region with stray bytes: {o1} instead of CorruptedRegion")); }
+                if region != "intact" { fails.push(format!("C14: an import that found matching version and format left the data region {region}")); }
+            }
+            let o = if fails.is_empty() { "ok".to_string() } else { format!("fail:{}", fails.join("; ")) };
+            format!("{o1} | region {region} | O {o}")
+        }
+        Err(_) => "panic | O fail:panic".into(),
+    }
+}
+
 pub fn exec(tmp: &std::path::Path, line: &str) -> String {
     let ws: Vec<&str> = line.split_whitespace().collect();
+    if ws.first() == Some(&"impc") { return exec_corrupt(tmp, &ws); }
     if ws.first() != Some(&"imp") { return line.to_string(); }
     let (fc, ec, vc, fr, er, vr) = (ws[1], ws[2] == "forced", ws[3].parse::<u32>().unwrap(), ws[4], ws[5] == "forced", ws[6].parse::<u32>().unwrap());
     let n: usize = ws[7].parse().unwrap();
@@ -99,6 +149,9 @@ pub fn all_lines() -> Vec<String> {
         let n = if (fc.len() + fr.len() + dv as usize) % 2 == 0 { 10 } else { 2500 };
         v.push(format!("imp {fc} {ec} 5 {fr} {er} {} {n}", 4 + dv));
     } } } } }
+    for f in ["bytes", "zc"] { for ec in ["plain", "forced"] { for er in ["plain", "forced"] { for n in [3usize, 700] {
+        v.push(format!("impc {f} {ec} {er} 5 {n}"));
+    } } } }
     v
 }
 
